@@ -36,15 +36,30 @@ type child struct {
 	dead   chan struct{}
 	werr   error
 	dir    string
+	first  []byte // the line the child reports itself with
 }
 
 func startChild(seed int64) (*child, error) {
+	c, err := startChildMode("rpcchild", seed)
+	if err != nil {
+		return nil, err
+	}
+	if err := json.Unmarshal(c.first, &c.info); err != nil {
+		c.stop()
+		return nil, err
+	}
+	c.first = nil
+	return c, nil
+}
+
+// mode: rpcchild (hostile suite) or readchild (readers suite)
+func startChildMode(mode string, seed int64) (*child, error) {
 	dir, err := os.MkdirTemp("", "c18rpc")
 	if err != nil {
 		return nil, err
 	}
 	c := &child{dead: make(chan struct{}), dir: dir}
-	c.cmd = exec.Command(os.Args[0], "rpcchild", fmt.Sprint(seed), dir)
+	c.cmd = exec.Command(os.Args[0], mode, fmt.Sprint(seed), dir)
 	c.stdin, _ = c.cmd.StdinPipe()
 	so, _ := c.cmd.StdoutPipe()
 	c.cmd.Stderr = (*childStderr)(c)
@@ -61,7 +76,8 @@ func startChild(seed int64) (*child, error) {
 				return
 			}
 			if len(line) > 0 && line[0] == '{' {
-				got <- json.Unmarshal(line, &c.info)
+				c.first = line
+				got <- nil
 				return
 			}
 		}
